@@ -15,6 +15,7 @@ EXPLANATION = (
     "last_band_id through next_sibling; (4) the hunk sequence only ever advances by one after a successful write and "
     "names the written path; (5) a block is written only when the present set says it is absent; (6) the local "
     "transport's failed-write cleanup removes only a file this call opened. Who may remove archive files is C05.5."
+    " Added: the one exception of the local transport - completing a leftover - applies to zero-length files only (C07.2.local d)."
 )
 UNDECIDED = ["byte-identity of pre-existing files as an end state (follows from the rules + OS semantics of O_EXCL, trusted)",
              "outcome of two racing backups (schedule-quantified); decided only that the loser's head write is create-new"]
